@@ -183,6 +183,13 @@ class Interp:
             raise AnalysisError(f"absint: function {qualname} not found in {self.module.rel}")
         return self.call_node(f.node, list(args), dict(kwargs), Env())
 
+    def call_generator(self, qualname: str, *args, **kwargs):
+        """run a generator function to exhaustion; -> list of the yielded values"""
+        self._yields = []
+        self.call_function(qualname, *args, **kwargs)
+        out, self._yields = self._yields, None
+        return out
+
     def call_node(self, node, args, kwargs, env):
         local = Env(env)
         if isinstance(node, ast.Lambda):
@@ -432,6 +439,11 @@ class Interp:
                     return False
                 left = right
             return True
+        if isinstance(e, ast.Yield):
+            if getattr(self, "_yields", None) is None:
+                raise AnalysisError("absint: yield outside call_generator")
+            self._yields.append(self.ev(e.value, env) if e.value is not None else None)
+            return None
         if isinstance(e, ast.IfExp):
             tv = self.ev(e.test, env)
             if isinstance(tv, (BV, Opaque)) and "__ifexp__" in self.prims:
